@@ -28,7 +28,7 @@ class C14(object):
     def gen(self, rng, tier):
         n_cases = 64 if tier == 'quick' else 600
         for _ in range(n_cases):
-            n = rng.choice([2, 3, 3, 4]) if tier == 'thorough' else rng.choice([2, 3, 3])
+            n = rng.choice([2, 3, 3, 4]) if tier == 'thorough' else rng.choice([2, 3, 3, 3, 4])
             c = gen.rand_dist_case(rng, nmin=n, nmax=n, amax=2 if n == 4 else 3, bases=['linear', 2], max_support=10,
                                    klasses=('str', 'tuple'), allow_space=False)
             if c['names']:
@@ -38,7 +38,7 @@ class C14(object):
             if any(0 < Fraction(p) < Fraction(1, 1000) for p in c['pmf']):
                 pv, _ = gen.rand_prob_vector(rng, len(c['outs']), 'small')
                 c['pmf'] = [str(p) for p in pv]
-            fam = rng.choice(['singletons', 'pairs', 'chain', 'full', 'random', 'nested'])
+            fam = rng.choice(['singletons', 'pairs', 'chain', 'full', 'random', 'nested'] + (['gapped', 'gapped'] if n == 4 else []))
             if fam == 'singletons':
                 groups = [[i] for i in range(n)]
             elif fam == 'pairs':
@@ -47,12 +47,15 @@ class C14(object):
                 groups = [[i, i + 1] for i in range(n - 1)]
             elif fam == 'full':
                 groups = [list(range(n))] + ([[0]] if rng.random() < 0.5 else [])
+            elif fam == 'gapped':
+                groups = rng.choice([[[0, 1, 3], [2]], [[0, 2, 3], [1]], [[0, 1, 3], [1, 2]], [[0, 2, 3], [0, 1]]])
             elif fam == 'nested':
                 groups = [[0], [0, 1]] + ([[2]] if n > 2 else [])
             else:
                 groups = [sorted(rng.sample(range(n), rng.randint(1, n - 1))) for _ in range(rng.randint(1, 3))]
             c.update({'kind': rng.choice(['maxent', 'maxent', 'maxent', 'chain']), 'groups': groups, 'fam': fam,
-                      'byname': bool(c['names']) and rng.random() < 0.5})
+                      'byname': bool(c['names']) and rng.random() < 0.5, 'pre': rng.choice([None, 'zeros', 'zeros', 'full']),
+                      'k_max': rng.choice([None, None] + list(range(2, n + 1)))})
             yield c
 
     def shrink(self, case):
@@ -99,6 +102,20 @@ class C14(object):
         names = case.get('names')
         groups = case['groups']
         rvs = [[names[i] for i in g] for g in groups] if case['byname'] else groups
+        if case.get('pre'):
+            # history: the same call on a sibling over the same alphabets whose marginal on the first group has a
+            # structural zero (or, for 'full', on the uniform sibling) must not influence the call being judged
+            alph = [sorted(set(o[i] for o in case['outs'])) for i in range(case['n'])]
+            cells = [list(o) for o in itertools.product(*alph)]
+            g0 = groups[0]
+            if case['pre'] == 'zeros':
+                cells = [o for o in cells if not all(o[i] == alph[i][0] for i in g0)] or cells
+            if all(sorted(set(o[i] for o in cells)) == alph[i] for i in range(case['n'])):
+                sib = dit.Distribution([gen.to_py(o, klass) for o in cells], [1.0 / len(cells)] * len(cells))
+                if names:
+                    sib.set_rv_names(names)
+                r.features.append('pre=%s' % case['pre'])
+                maxent_dist(sib, rvs, rv_mode='names' if case['byname'] else 'indices')
         m = maxent_dist(d, rvs, rv_mode='names' if case['byname'] else 'indices')
         if gen.obs_py(d, klass) != before:
             r.oracle_fail = 'maxent_dist changed its argument'
@@ -144,10 +161,13 @@ class C14(object):
         if bits2f(resid) <= 1e-6:
             dev = max(abs(ipf.get(k, 0.0) - got.get(k, 0.0)) for k in set(ipf) | set(got))
             r.detail['max_dev_from_ipf'] = dev
-            if dev > 2e-3:
+            if hm < hq - 1e-4:
+                # the model's iterate is itself a witness: same marginals (residual <= 1e-6), strictly more entropy
+                r.oracle_fail = ('entropy of the result %r is below %r, the entropy of another distribution with the same '
+                                 'marginals (the IPF iterate, marginal residual %r)' % (hm, hq, bits2f(resid)))
+                r.detail['witness'] = {str(k): v for k, v in ipf.items()}
+            elif dev > 2e-3:
                 r.mismatch = 'maxent_dist differs from the IPF fixed point by %r' % dev
-            elif hm < hq - 1e-4:
-                r.mismatch = 'entropy %r below the IPF entropy %r' % (hm, hq)
         else:
             r.features.append('ipf-not-converged')
 
@@ -159,12 +179,15 @@ class C14(object):
         n = case['n']
         r.nontrivial = n >= 3
         before = gen.obs_py(d, klass)
-        ds = marginal_maxent_dists(d)
+        kmax = case.get('k_max')
+        r.features.append('k_max=%s' % kmax)
+        ds = marginal_maxent_dists(d) if kmax is None else marginal_maxent_dists(d, k_max=kmax)
         if gen.obs_py(d, klass) != before:
             r.oracle_fail = 'marginal_maxent_dists changed its argument'
             return
-        if len(ds) != n + 1:
-            r.oracle_fail = 'chain has %d members for %d variables' % (len(ds), n)
+        top = n if kmax is None else kmax       # the chain stops at the k_max-way member
+        if len(ds) != top + 1:
+            r.oracle_fail = 'chain has %d members for %d variables (k_max=%s)' % (len(ds), n, kmax)
             return
         hs = []
         tabs = []
@@ -178,10 +201,10 @@ class C14(object):
             r.oracle_fail = 'entropies along the chain are not non-increasing: %s' % hs
         elif len(set(round(v, 9) for v in tabs[0].values() if v > 0)) != 1:
             r.oracle_fail = 'the first member of the chain is not uniform'
-        elif any(abs(tabs[-1].get(k, 0.0) - src.get(k, 0.0)) > 1e-9 for k in set(src) | set(tabs[-1])):
+        elif top == n and any(abs(tabs[-1].get(k, 0.0) - src.get(k, 0.0)) > 1e-9 for k in set(src) | set(tabs[-1])):
             r.oracle_fail = 'the last member of the chain is not the distribution itself'
         else:
-            for k in range(1, n):
+            for k in range(1, min(n, top + 1)):
                 for g in itertools.combinations(range(n), k):
                     a, b = self.marg(src, list(g)), self.marg(tabs[k], list(g))
                     if any(abs(a.get(x, 0.0) - b.get(x, 0.0)) > 2e-4 for x in set(a) | set(b)):
